@@ -6,7 +6,7 @@ import os
 import time
 import traceback
 
-UNIT_BUDGET_S = {'quick': 300, 'thorough': 900}
+UNIT_BUDGET_S = {'quick': 600, 'thorough': 1200}
 
 
 def _work(kind, payload):
